@@ -94,6 +94,9 @@ inline void swarmEnv(Plan& p, Rng& r, bool readFaults, bool writeFaults, bool bi
 	p.setenv("short_write", (writeFaults && r.chance(1, 2)) ? SR[lo + r.below(6 - lo)] : 0);
 	p.setenv("eintr", ((readFaults || writeFaults) && r.chance(1, 3)) ? r.range(2, 5) : 0);
 	p.setenv("readdir", r.chance(1, 2) ? r.next() | 1 : 0);
+	// the process environment: what LANG / LC_ALL say (including locales that do not exist here) and the C locale in force
+	if (r.chance(1, 6)) { static const char* L[] = {"C", "C.UTF-8", "POSIX", "en_US.UTF-8", "xx_YY.bogus", "tr_TR.ISO-8859-9"}; p.setenv(r.chance(1, 4) ? "os.LC_ALL" : "os.LANG", L[r.below(6)]); }
+	if (r.chance(1, 10)) p.setenv("clocale", "C.UTF-8");
 }
 
 // Value semantics of an archive object: at a seeded point of a history the object in use is replaced by a copy of itself (the
